@@ -413,14 +413,25 @@ class InstanceValue(Object):
         self.cls = cls
 
     @cached_property
+    def _instance_attrs(self):
+        # type: () -> Attributes
+        """Attributes assigned through an instance (self.x = ...) in the
+        class or in any of its bases; never class-level attributes."""
+        attrs = {}  # type: Attributes
+        for b in reversed(self.cls.bases):
+            o = b.call(self.ctx)
+            if isinstance(o, InstanceValue):
+                attrs.update(o._instance_attrs)
+            elif isinstance(o, RuntimeName) and hasattr(o.value, '__dict__'):
+                attrs.update(o._attrs)
+        attrs.update(self.cls.scope.top.assigns(self.ctx).get(self, {}))
+        return attrs
+
+    @cached_property
     def _attrs(self):
         # type: () -> Attributes
         attrs = self.cls._attrs.copy()
-        for b in reversed(self.cls.bases):
-            o = b.call(self.ctx)
-            if o:
-                attrs.update(o._attrs)
-        attrs.update(self.cls.scope.top.assigns(self.ctx).get(self, {}))
+        attrs.update(self._instance_attrs)
         return attrs
 
 
